@@ -113,7 +113,8 @@ def _gen_pair(rng, g, running):
 
 async def _collect_state(seed, length, npairs, rng):
     impl, g = await b2.make_state(seed, length)
-    rec = {"seed": seed, "ops": [t[0] for t in g.trace if t[0][0] != "dispatch_error"], "pairs": []}
+    rec = {"seed": seed, "ops": [t[0] for t in g.trace if t[0][0] != "dispatch_error"],
+           "ops_full": list(g.ops_full), "pairs": []}
     try:
         running = g.running()
         if len(running) < 2:
@@ -139,7 +140,7 @@ async def _collect_state(seed, length, npairs, rng):
 
 def _states(ctx):
     if getattr(ctx, "c02_states", None) is None:
-        n, npairs = ctx.scale((160, 30), (1200, 60))
+        n, npairs = ctx.scale((160, 30), (600, 40))
         out = []
         for i in range(n):
             rng = random.Random(f"c02-pairs-{ctx.seed}-{ctx.tier}-{i}")
@@ -171,7 +172,7 @@ def _wit(p):
 
 def correspondence(ctx):
     states = _states(ctx)
-    per_state = ctx.scale(10, 20)
+    per_state = ctx.scale(10, 12)
     checks, idx = [], []
     for si, st in enumerate(states):
         pairs = st["pairs"][:per_state]
@@ -201,7 +202,12 @@ def correspondence(ctx):
     nrep = ctx.scale(12, 60)
     cand = [(st, p) for st in states for p in st["pairs"][:3]]
     for st, p in rng.sample(cand, min(nrep, len(cand))):
-        res = asyncio.run(b2.orders_replay(st["ops"], p["r1"], p["r2"]))
+        try:
+            res = asyncio.run(b2.orders_replay(st["ops_full"], p["r1"], p["r2"]))
+        except RuntimeError as e:      # the replayed scheduler chose differently: not comparable
+            ctx.count("savepoint-vs-transaction: replay diverged")
+            ctx.notes.append(f"state {st['seed']}: {e}")
+            continue
         ctx.count("savepoint-vs-transaction checks")
         if res != p["res"]:
             ctx.add_failure("correspondence", "savepoint-vs-transaction", "C02:harness:savepoint-vs-transaction",
@@ -328,7 +334,7 @@ def oracle(ctx):
 
 
 def _e3_items(ctx):
-    no, ng = ctx.scale((70, 30), (600, 300))
+    no, ng = ctx.scale((70, 30), (300, 150))
     shifts = ctx.scale([0], [0, 100, 200])
     items = []
     for sh in shifts:
@@ -341,7 +347,7 @@ def _e3_schedules(ctx):
     items = _e3_items(ctx)
     results = e3.pool_map(b3.run_case, items, nproc=6)
     if ctx.thorough():
-        perm_items = [("overlap", 10000 * ctx.seed + i, 0) for i in range(150)]
+        perm_items = [("overlap", 10000 * ctx.seed + i, 0) for i in range(80)]
         results += e3.pool_map(run_permutations, perm_items, nproc=6)
     for r in results:
         if "crash" in r:
